@@ -104,8 +104,10 @@ impl RHCT {
         let node = IsaStringNode { string };
         let old_offset = self.handle_offset;
 
+        // Serialise first: an oversize node is refused before the table is touched
+        let sum = node.u8sum();
         self.handle_offset += node.len() as u32;
-        self.update_header(node.u8sum(), node.len() as u32);
+        self.update_header(sum, node.len() as u32);
         self.structures.push(Box::new(node));
 
         IsaStringHandle(old_offset)
@@ -130,8 +132,10 @@ impl RHCT {
     }
 
     pub fn add_hart_info(&mut self, hi: HartInfoNode) {
+        // Serialise first: an oversize node is refused before the table is touched
+        let sum = hi.u8sum();
         self.handle_offset += hi.len() as u32;
-        self.update_header(hi.u8sum(), hi.len() as u32);
+        self.update_header(sum, hi.len() as u32);
         self.structures.push(Box::new(hi));
     }
 }
